@@ -143,6 +143,11 @@ def forced_cells(tier):
                 cells.append(dict(alg=alg, form=form, b64=b64))
     factors = {"sign_rep": P.SIGN_REPS, "verify_rep": P.VERIFY_REPS, "key_given": P.KEY_GIVEN, "placement": P.PLACEMENTS,
                "payload": P.PAYLOAD_NAMES[:11]}
+    # payloads whose attached / detached decision sits at an edge of the URL-safe test, in every unencoded-payload form and with the ordinary encoding
+    for pl in P.PAYLOAD_NAMES[12:]:
+        for form, b64 in (("compact", "false"), ("compact", "absent"), ("flat", "false"), ("compact", "true")):
+            if b64 in P.B64:
+                cells.append(dict(alg=JWS_ALGS[(len(cells) * 5) % len(JWS_ALGS)], form=form, b64=b64, payload=pl))
     names = list(factors)
     i = 0
     for a, b in itertools.combinations(names, 2):
